@@ -2,9 +2,29 @@
 
 package remote
 
+import ocispec "github.com/opencontainers/image-spec/specs-go/v1"
+
 // Export shims for the verification harness (overlay only; never on disk in /repo).
 
 var (
 	VerifBuildManifestURL = buildRepositoryManifestURL
 	VerifBuildBlobURL     = buildRepositoryBlobURL
 )
+
+// VerifApplyReferrerChanges drives the unexported applyReferrerChanges: adds[i] tells
+// whether change i is an add (true) or a remove (false) of descs[i].
+func VerifApplyReferrerChanges(referrers []ocispec.Descriptor, adds []bool, descs []ocispec.Descriptor) ([]ocispec.Descriptor, bool, error) {
+	changes := make([]referrerChange, len(descs))
+	for i, d := range descs {
+		op := referrerOperationRemove
+		if adds[i] {
+			op = referrerOperationAdd
+		}
+		changes[i] = referrerChange{referrer: d, operation: op}
+	}
+	res, err := applyReferrerChanges(referrers, changes)
+	if err == errNoReferrerUpdate {
+		return nil, true, nil
+	}
+	return res, false, err
+}
